@@ -580,6 +580,36 @@ def r3_full_read_mode(ck, cx):
     ck.floor('R3', nf, 1, '_recv calls in _transact')
 
 
+
+def r6_requested_size_reaches_the_port(ck, cx, rule='R6'):
+    """The transaction manager asks the client for exactly the predicted number of bytes (recvPacket(n) -> client.recv(n)).  Whatever
+    recv() resolves to for a client class must hand that number on to the transport read unchanged: a recv() that shrinks (or grows)
+    the request replaces the prediction by something else."""
+    ck.rule(rule, 'client.recv(size) passes the requested size unchanged to the transport read (_recv) on every path, for every synchronous client class')
+    from .. import ownership as _o
+    n = 0
+    seen = set()
+    for qn in _o.SYNC_CLIENTS:
+        k = cx.idx.cls(qn)
+        f = cx.idx.find_method(k, 'recv')
+        if f is None or (f.qn, k.qn) in seen:
+            continue
+        seen.add((f.qn, k.qn))
+        ck.saw('functions', f.qn)
+        size = f.params[1]
+        for p in cx.enum(f, k, max_depth=0):
+            if p.exit and p.exit[0] == 'exc':
+                continue
+            annotate(p, heap=False)
+            r = ret_expr(p)
+            n += 1
+            ok = isinstance(r, ast.Call) and callee_name(r) == '_recv' and len(r.args) == 1 and isinstance(r.args[0], ast.Name) and r.args[0].id == size
+            ck.ob(rule, k.qn + '.recv', 'recv(size) returns self._recv(size)', ok, detail='recv-changes-requested-size', loc=cx.floc(f),
+                  message='%s.recv (resolved for %s) returns `%s`: the number of bytes read from the port is no longer the length the transaction manager '
+                          'predicted, so a reply that arrives in two bursts is cut short of its checksum' % (f.cls.name if f.cls else '?', k.name, U(r)[:70] if r is not None else None))
+    ck.floor(rule, n, 3, 'recv paths of the synchronous clients')
+
+
 def run(ck, tier):
     cx = Ctx()
     ck.guard(r1_prediction, ck, cx)
@@ -593,4 +623,5 @@ def run(ck, tier):
     from .. import ownership as _own2
     ck.rule('R5', 'no unsound memoisation (a caching decorator on a method, or on a function that returns a mutable container) in the modules this property rests on')
     ck.guard(_own2.rule_no_unsafe_memo, ck, cx, 'R5', ('pymodbus.transaction',) + ('pymodbus.utilities', 'pymodbus.pdu', 'pymodbus.factory', 'pymodbus.bit_read_message', 'pymodbus.bit_write_message', 'pymodbus.register_read_message', 'pymodbus.register_write_message', 'pymodbus.diag_message', 'pymodbus.file_message', 'pymodbus.other_message', 'pymodbus.mei_message'), 'the predicted length is the one cached for another request')
+    ck.guard(r6_requested_size_reaches_the_port, ck, cx)
     return cx.idx
